@@ -167,7 +167,9 @@ def check_armor(ctx):
             impl = f'Raise {type(e).__name__}'
         if replies[2 * i] != impl:
             rep.disagree('H-codec/encode_ascii_6', {'bits': b}, replies[2 * i], impl)
-        replay = {'entry': 'encode_ascii_6', 'bits': b, 'talker': '', 'channel': ''}
+        # 'earlier' (shared, not copied): the inputs encoded before this one in the same process -- a result that depends on
+        # earlier calls (a cache keyed too coarsely) only reproduces after them
+        replay = {'entry': 'encode_ascii_6', 'bits': b, 'talker': '', 'channel': '', 'earlier': cases, 'upto': i}
         if p is None:
             rep.violation({'entry': 'encode_ascii_6', 'component': 'exception', 'kind': f'exception:{impl[6:]}'},
                           f'encode_ascii_6(<{len(b)} bits>) raised {impl[6:]}', replay)
@@ -637,11 +639,24 @@ def replay(ctx, data):
         from bitarray import bitarray
         from pyais.util import encode_ascii_6, decode_into_bit_array
         b = data['bits']
-        try:
-            p, fill = encode_ascii_6(bitarray(b))
-        except Exception as e:      # noqa: BLE001
-            return f'raised {type(e).__name__}'
-        return '; '.join(x[1] for x in armor_oracle(b, p, fill, m.ask(f'armorspec {b or "-"}'), decode_into_bit_array)) or None
+
+        def once():
+            try:
+                p, fill = encode_ascii_6(bitarray(b))
+            except Exception as e:      # noqa: BLE001
+                return f'raised {type(e).__name__}'
+            return '; '.join(x[1] for x in armor_oracle(b, p, fill, m.ask(f'armorspec {b or "-"}'), decode_into_bit_array)) or None
+        r = once()
+        if r is None and data.get('earlier'):
+            for e in data['earlier'][:data.get('upto', 0)]:       # the same calls as in the recorded run, in order
+                try:
+                    encode_ascii_6(bitarray(e))
+                except Exception:      # noqa: BLE001
+                    pass
+            r = once()
+            if r is not None:
+                r += ' (only after the earlier calls of the recorded run: the result depends on history)'
+        return r
     if entry == 'ais_to_nmea_0183':
         p, f = data['payload'], data['fill']
         im = impl_call(pyais.ais_to_nmea_0183, p, talker, channel, f)
